@@ -1159,28 +1159,39 @@ def rule_floordiv(rule, files):
     binary fractions (1.0 // 0.1 == 9.0 although floor(1.0 / 0.1) == 10), so a frame count written `end // hop` loses
     its last frame exactly when the duration is a round multiple of a non-dyadic hop."""
 
-    def integral(t, f, depth=0):
-        if depth > 8:
+    def floating(t, f, depth=0):
+        """is the value certainly a float that need not be whole: a parameter documented as float / number (times, hops,
+        frame sizes, tolerances), a non-integral literal, a true division - looked for through arithmetic, rounding
+        to decimals and array reductions, not through int() / len() / floor()"""
+        if depth > 10:
             return False
         if t.op == "const":
-            return isinstance(t.a[0], (int, float)) and not isinstance(t.a[0], bool) and float(t.a[0]).is_integer() and not (isinstance(t.a[0], float) and "." in repr(t.a[0]) and False)
-        if count_form(t) is not None:
-            return True
-        if t.op == "call" and call_name(t) in ("builtins.len", "builtins.int", "np.int64", "builtins.round", "np.argmax", "np.argmin", "np.searchsorted", "np.count_nonzero"):
-            return True
-        if t.op == "sub" and t.a[0].op == "attr" and t.a[0].a[1] == "shape":
-            return True
-        if t.op == "attr" and t.a[1] in ("size", "ndim"):
-            return True
-        if t.op == "bin" and t.a[0] in ("+", "-", "*", "//", "%"):
-            return integral(t.a[1], f, depth + 1) and integral(t.a[2], f, depth + 1)
-        if t.op in ("idx",):
-            return True
+            return isinstance(t.a[0], float) and not float(t.a[0]).is_integer()
         if t.op == "param":
             doc = [x for x in f.docinfo.get("params", []) if x[0] == t.a[0]]
             ty = (doc[0][1] if doc else "") or ""
-            return "int" in ty and "float" not in ty
+            return ("float" in ty or "number" in ty) and "int" not in ty.replace("interval", "")
+        if t.op == "bin":
+            if t.a[0] == "/":
+                return True
+            return floating(t.a[1], f, depth + 1) or floating(t.a[2], f, depth + 1)
+        if t.op == "un":
+            return floating(t.a[1], f, depth + 1)
+        if t.op == "call":
+            n = call_name(t)
+            if n in ("builtins.int", "builtins.len", "np.floor", "np.ceil", "np.rint", "np.trunc", "builtins.round", "np.argmax", "np.argmin", "np.searchsorted", "np.count_nonzero", "np.sum"):
+                return n == "np.sum" and False
+            if n in ("np.round", "np.max", "np.min", "np.abs", "np.mean", "np.median", "builtins.float", "builtins.max", "builtins.min", "np.asarray", "np.array", "np.diff", "np.maximum", "np.minimum"):
+                return any(floating(z, f, depth + 1) for z in t.a[1])
+            return False
+        if t.op == "sub":
+            return floating(t.a[0], f, depth + 1)
+        if t.op == "ite":
+            return floating(t.a[1], f, depth + 1) or floating(t.a[2], f, depth + 1)
         return False
+
+    def integral(t, f, depth=0):
+        return not floating(t, f, depth)
 
     def run(ctx):
         n = 0
